@@ -33,7 +33,7 @@ def parseOp (tok : String) : Option Op :=
 def parseProg (t : String) : Option Prog :=
   (t.splitOn "/").mapM (fun l => if l.isEmpty then some [] else (l.splitOn ",").mapM parseOp)
 
-def fuel : Nat := 400000
+def fuel : Nat := 40000
 
 def env (d : DSt) : Env := { cfg := d.cfg, prog := d.prog, inc := fun _ => d.tickMs }
 
